@@ -1,21 +1,12 @@
 (* C15UriProofs.v — lifting the sweeps of C15UriSweeps*.v to the statements of Props/C15.v. *)
 From Verif Require Import Base Scope Types Prog Pop Token Authorize System Config Run Monitors Race RaceUri Tactics
-  C15Sweeps C15UriDefs C15UriSweeps C15UriSweeps3A C15UriSweeps3B.
+  C15Sweeps C15UriDefs C15UriSweeps.
 Require Import Lia.
 Local Open Scope nat_scope.
 Local Open Scope string_scope.
 (* nothing below may evaluate a scenario *)
 Local Opaque setup_of scn_uri setup scn_live solo_log consume_pos grant_save_pos solo_calls lookup_pos race_schedules successes
   tokens_obtained grants_written race_overlaps serial outcomes schedules_after_first_call.
-
-(* the bound: every interleaving of TWO requests for every response type; of THREE requests for the response types
-   whose accepted flow has four storage calls (code, id_token, code id_token: 34650 schedules each) *)
-Definition uri_bound (rt : string) (k : nat) : Prop := k = 2 \/ (k = 3 /\ ru_issues_token rt = false).
-
-Lemma in_plain rt : In rt ru_resp_types -> ru_issues_token rt = false -> In rt ru_plain_resp_types.
-Proof. intros H T. unfold ru_plain_resp_types. apply filter_In. split; [exact H|]. rewrite T. reflexivity. Qed.
-Lemma in_token rt : In rt ru_resp_types -> ru_issues_token rt = true -> In rt ru_token_resp_types.
-Proof. intros H T. unfold ru_token_resp_types. apply filter_In. split; assumption. Qed.
 
 Lemma uri_live_lemma : forall rt rotation, In rt ru_resp_types ->
   scn_live (scn_uri rt rotation) = true /\ solo_log (setup_of (scn_uri rt rotation)) = ru_solo_log rt /\
@@ -27,30 +18,11 @@ Proof.
   pose proof (forallb_in _ _ _ (live_uri rotation) Hrt) as H. cbv beta in H. unfold uri_live in H. exact H.
 Qed.
 
-Lemma uri_facts_all rt rotation k sched : In rt ru_resp_types -> uri_bound rt k ->
-  In sched (race_schedules (setup_of (scn_uri rt rotation)) k) -> uri_facts rt (setup_of (scn_uri rt rotation)) k sched.
+Lemma uri_facts_all rt rotation sched : In rt ru_resp_types ->
+  In sched (race_schedules (setup_of (scn_uri rt rotation)) 2) -> uri_facts rt (setup_of (scn_uri rt rotation)) 2 sched.
 Proof.
-  intros Hrt [->|[-> T]] Hin.
-  - pose proof (forallb_in _ _ _ (sweep_uri_2 rotation) Hrt) as H. cbv beta in H.
-    exact (uri_ok_spec rt (setup_of (scn_uri rt rotation)) 2 H sched Hin).
-  - pose proof (in_plain rt Hrt T) as Hp.
-    assert (H : uri_ok rt (setup_of (scn_uri rt rotation)) 3 = true).
-    { destruct rotation.
-      - pose proof (forallb_in _ _ _ sweep_uri_3_plain_true Hp) as H. cbv beta in H. exact H.
-      - pose proof (forallb_in _ _ _ sweep_uri_3_plain_false Hp) as H. cbv beta in H. exact H. }
-    exact (uri_ok_spec rt (setup_of (scn_uri rt rotation)) 3 H sched Hin).
-Qed.
-
-(* three requests of a five-call flow: the interleavings that follow the three client lookups *)
-Lemma uri_facts_three_token rt rotation sched : In rt ru_resp_types -> ru_issues_token rt = true ->
-  In sched (schedules_after_first_call (setup_of (scn_uri rt rotation)) 3) -> uri_facts rt (setup_of (scn_uri rt rotation)) 3 sched.
-Proof.
-  intros Hrt T Hin. pose proof (in_token rt Hrt T) as Hp.
-  assert (H : uri_ok_on rt (setup_of (scn_uri rt rotation)) 3 (schedules_after_first_call (setup_of (scn_uri rt rotation)) 3) = true).
-  { destruct rotation.
-    - pose proof (forallb_in _ _ _ sweep_uri_3_token_true Hp) as H. cbv beta zeta in H. exact H.
-    - pose proof (forallb_in _ _ _ sweep_uri_3_token_false Hp) as H. cbv beta zeta in H. exact H. }
-  exact (uri_ok_on_spec rt (setup_of (scn_uri rt rotation)) 3 _ H sched Hin).
+  intros Hrt Hin. pose proof (forallb_in _ _ _ (sweep_uri_2 rotation) Hrt) as H. cbv beta in H.
+  exact (uri_ok_spec rt (setup_of (scn_uri rt rotation)) 2 H sched Hin).
 Qed.
 
 Lemma uri_refuted_lemma : forall rt rotation, In rt ru_resp_types ->
